@@ -285,7 +285,17 @@ def run_impl(case):
       [l for l in text.splitlines() if not l.startswith('#')]
   # same store built in another order, fresh interpreter
   s2 = gindom.Session()
-  for op in (case['_regops'] if '_regops' in case else case['ops'][:case['_nregs']]) + case['_order2']:
+
+  def rev_dicts(v):   # ... and every dict value built in the opposite key order (an equal value)
+    if isinstance(v, dict):
+      if 'd' in v:
+        return {'d': [[rev_dicts(k), rev_dicts(x)] for k, x in reversed(v['d'])]}
+      return {k: rev_dicts(x) for k, x in v.items()}
+    if isinstance(v, list):
+      return [rev_dicts(x) for x in v]
+    return v
+  for op in (case['_regops'] if '_regops' in case else case['ops'][:case['_nregs']]) + \
+      [dict(o, val=rev_dicts(o['val'])) if 'val' in o else o for o in case['_order2']]:
     s2.run_op(op)
   if imports:
     s2.gin.parse_config('\n'.join(reversed(imports)))
